@@ -78,8 +78,11 @@ def job_deploy(tid, src, cfg, evm="cancun", scale=1):
     out = vyper.compile_code(src, output_formats=["bytecode", "bytecode_runtime", "layout", "blueprint_bytecode"], settings=settings)
     init = bytes.fromhex(out["bytecode"][2:])
     runtime = bytes.fromhex(out["bytecode_runtime"][2:])
+    from vyper.compiler.settings import anchor_settings
+
     cd = CompilerData(src, settings=settings)
-    mod_t = cd.annotated_vyper_module._metadata["type"]
+    with anchor_settings(settings):
+        mod_t = cd.annotated_vyper_module._metadata["type"]
     imm_len = mod_t.immutable_section_bytes
     imm_types = {}
     for n in cd.annotated_vyper_module.body:
